@@ -723,7 +723,7 @@ FAULTS = ('f_wrong_class', 'f_wrong_name', 'f_foreign_elem', 'f_level_add', 'f_l
 WILD = ('w_reattach', 'w_add_twice', 'w_set_own', 'w_read', 'w_parent_ctor', 'w_del_view', 'w_pop', 'w_children_assign',
         'w_value', 'w_setitem_view', 'w_deep_write', 'w_detached_readd', 'w_parent_assign', 'w_insert_view',
         'w_dtobject', 'w_setitem_view_elem', 'w_read_beyond', 'w_unnamed_component_value', 'w_unnamed_component_retype',
-        'w_parent_none', 'w_extend_from_other')
+        'w_parent_none')
 
 
 class Skip(Exception):
@@ -1166,11 +1166,6 @@ def apply_wild(world, op):
         child = src[i % len(src)]
         world.detached.append(child)
         G(lambda: setattr(child, 'parent', None))
-    elif k == 'w_extend_from_other':
-        # the MutableSequence mix-ins over another element's children view: children.extend(other.children)
-        if not reps(other):
-            raise Skip()
-        G(lambda: el.children.extend(other.children))
     elif k == 'w_reattach':
         src = reps(other)
         if src:
